@@ -35,6 +35,12 @@ type AbstractResult struct {
 // condition is not a comparison it can decide, and on panics/unsupported
 // control flow.
 func AbstractRun(fn *ssa.Function, rel Rel) (*AbstractResult, error) {
+	return AbstractRunOpt(fn, rel, nil)
+}
+
+// AbstractRunOpt is AbstractRun with an oracle for boolean values that are not
+// comparisons (results of calls such as t.Before(u)).
+func AbstractRunOpt(fn *ssa.Function, rel Rel, boolOf func(ssa.Value) (bool, bool)) (*AbstractResult, error) {
 	if len(fn.Blocks) == 0 {
 		return nil, fmt.Errorf("no body")
 	}
@@ -96,6 +102,11 @@ func AbstractRun(fn *ssa.Function, rel Rel) (*AbstractResult, error) {
 				case token.GEQ:
 					return s >= 0, nil
 				}
+			}
+		}
+		if boolOf != nil {
+			if r, ok := boolOf(v); ok {
+				return r, nil
 			}
 		}
 		return false, fmt.Errorf("cannot evaluate %s (%T) as a comparison", Describe(v), v)
@@ -168,7 +179,10 @@ func AbstractRun(fn *ssa.Function, rel Rel) (*AbstractResult, error) {
 // l = M·q + r (q ≥ 0, r fixed per class).
 
 // Lin is a·q + b.
-type Lin struct{ A, B int64 }
+type Lin struct {
+	A, B int64
+	S    int64 // + S·t for an unknown integer t ≥ 0 (0: none); only sound for congruence checks
+}
 
 // LinEval folds v to a linear form in q under "sym = M·q + r". env resolves
 // phis of an abstract run. ok=false when v leaves the fragment
@@ -186,10 +200,10 @@ func LinEval(v ssa.Value, sym ssa.Value, M, r int64, env map[*ssa.Phi]ssa.Value)
 		return LinEval(x.X, sym, M, r, env)
 	}
 	if v == sym {
-		return Lin{M, r}, true
+		return Lin{M, r, 0}, true
 	}
 	if n, ok := ConstInt(v); ok {
-		return Lin{0, n}, true
+		return Lin{0, n, 0}, true
 	}
 	b, ok := v.(*ssa.BinOp)
 	if !ok {
@@ -197,29 +211,51 @@ func LinEval(v ssa.Value, sym ssa.Value, M, r int64, env map[*ssa.Phi]ssa.Value)
 	}
 	l, ok1 := LinEval(b.X, sym, M, r, env)
 	rr, ok2 := LinEval(b.Y, sym, M, r, env)
+	if b.Op == token.MUL && ok1 != ok2 {
+		// opaque non-negative factor times a constant: c·t
+		k := l
+		if !ok1 {
+			k = rr
+		}
+		if k.A == 0 && k.S == 0 && k.B > 0 {
+			return Lin{0, 0, k.B}, true
+		}
+	}
 	if !ok1 || !ok2 {
 		return Lin{}, false
 	}
+	gcd := func(a, b int64) int64 {
+		for b != 0 {
+			a, b = b, a%b
+		}
+		if a < 0 {
+			a = -a
+		}
+		return a
+	}
 	switch b.Op {
 	case token.ADD:
-		return Lin{l.A + rr.A, l.B + rr.B}, true
+		return Lin{l.A + rr.A, l.B + rr.B, gcd(l.S, rr.S)}, true
 	case token.SUB:
-		return Lin{l.A - rr.A, l.B - rr.B}, true
-	case token.MUL:
-		if l.A == 0 {
-			return Lin{rr.A * l.B, rr.B * l.B}, true
+		if rr.S != 0 {
+			return Lin{}, false
 		}
-		if rr.A == 0 {
-			return Lin{l.A * rr.B, l.B * rr.B}, true
+		return Lin{l.A - rr.A, l.B - rr.B, l.S}, true
+	case token.MUL:
+		if l.A == 0 && l.S == 0 {
+			return Lin{rr.A * l.B, rr.B * l.B, rr.S * l.B}, true
+		}
+		if rr.A == 0 && rr.S == 0 {
+			return Lin{l.A * rr.B, l.B * rr.B, l.S * rr.B}, true
 		}
 	case token.QUO:
 		// (a·q + b) / c with c | a and 0 ≤ b: = (a/c)·q + b/c  (non-negative operands)
-		if rr.A == 0 && rr.B > 0 && l.A%rr.B == 0 && l.A >= 0 && l.B >= 0 {
-			return Lin{l.A / rr.B, l.B / rr.B}, true
+		if rr.A == 0 && rr.S == 0 && l.S == 0 && rr.B > 0 && l.A%rr.B == 0 && l.A >= 0 && l.B >= 0 {
+			return Lin{l.A / rr.B, l.B / rr.B, 0}, true
 		}
 	case token.REM:
-		if rr.A == 0 && rr.B > 0 && l.A%rr.B == 0 && l.A >= 0 && l.B >= 0 {
-			return Lin{0, l.B % rr.B}, true
+		if rr.A == 0 && rr.S == 0 && l.S == 0 && rr.B > 0 && l.A%rr.B == 0 && l.A >= 0 && l.B >= 0 {
+			return Lin{0, l.B % rr.B, 0}, true
 		}
 	}
 	return Lin{}, false
@@ -234,7 +270,10 @@ func LinRel(sym ssa.Value, M, r int64, envOf func() map[*ssa.Phi]ssa.Value) Rel 
 		if !ok1 || !ok2 {
 			return 0, false
 		}
-		d := Lin{a.A - b.A, a.B - b.B}
+		if a.S != 0 || b.S != 0 {
+			return 0, false
+		}
+		d := Lin{a.A - b.A, a.B - b.B, 0}
 		switch {
 		case d.A == 0:
 			return sign(d.B), true
